@@ -14,6 +14,9 @@
          string as its protocol version is answered with the service description - RpcServer.serve_one and the HTTP
          _run_unary_sync (real bytecode, declared version symbolic), and the whole real socket / HTTP stack on
          generated versions (absent / equal / older / newer / malformed shapes).
+(e) xh : "identical across server ids, docstrings and parameter defaults": generated Protocols (solver-chosen parameter
+         types, default per parameter none / value / None, docstrings, server id) through the real rpc_methods ->
+         build_describe_batch -> compute_protocol_hash pipeline describe the same and hash the same as their bare twin.
 
 Schema blobs are *assumed self-delimiting* (1-byte length prefix + content; Arrow IPC messages are length-prefixed)
 and never start with the row marker; names contain neither 0x1e nor 0x1f (true of Python identifiers).
@@ -38,7 +41,7 @@ _NL = pick(2, 3)
 _CL = pick(1, 2)
 BOUNDS = "(a) 0..2 rows, every flag combination of the first row, arbitrary opaque values; every single edit of one of the five per-row flags (is_exchange tri-state) changes the hashed bytes; (b) names/protocol name = any byte strings <= %d bytes without 0x1e/0x1f, blob content <= 2 bytes, remainder <= %d bytes, any number of rows by induction; (c) protocol names <= %d chars" % (pick(3, 4), pick(3, 4), _NL + 1)
 OUTSIDE = (
-    "build_describe_batch <-> parse_describe_batch fidelity and cross-process stability of Arrow schema serialisation; "
+    "build_describe_batch <-> parse_describe_batch fidelity beyond the generated Protocols of (e); cross-process stability of Arrow schema serialisation; "
     "of the version gate only the __describe__ exemption is decided here (one declaring service; the gate itself, other methods and "
     "undeclared services are C09's); HTTP stream routes carry no __describe__; SHA-256 itself; rows are taken in the order given (sorting by name is build_describe_batch's)"
 )
@@ -1616,3 +1619,131 @@ ENCODED = ENCODED + [_srv.RpcServer.serve_one, _hunary._run_unary_sync]
 BOUNDS += ("; (d) __describe__ under any declared client version: symbolic byte string <= %d bytes (or none) through serve_one and _run_unary_sync; "
            "generated versions (components 0..%d x %d shapes) through the whole real socket / HTTP stack; one service declaring %s"
            % (_DL, _DC, len(_D_SHAPES), _DSvc.protocol_version))
+
+
+# ---------------------------------------------------------------------------
+# (e) "... identical across processes, server ids, docstrings and parameter defaults"
+# ---------------------------------------------------------------------------
+# Decided on the real pipeline (rpc_methods -> build_describe_batch -> compute_protocol_hash, reached through
+# RpcServer and a real __describe__ call): a generated Protocol whose two parameters carry a solver-chosen default each
+# (none / a value of the annotated type / None), with or without docstrings, served under either server id, describes
+# the same methods (kind, parameter / result / header schemas, exchange flag) and has the same protocol hash as the
+# same Protocol written without defaults and docstrings.  Solver case split over the generated classes; every cell
+# builds the classes and runs the real stack concretely.
+
+import enum as _enum  # noqa: E402
+import types as _types  # noqa: E402
+from typing import Optional as _Optional  # noqa: E402
+
+
+class _GColour(_enum.Enum):
+    RED = "red"
+    BLUE = "blue"
+
+
+# (annotation, a default value of that type)
+_G_TYPES = ((int, 10), (str, "s"), (float, 1.5), (bytes, b"b"), (bool, True), (_Optional[int], 3), (list[int], [1]), (_GColour, _GColour.RED))
+_G_DEFAULT_KINDS = ("no default", "a value of the type", "None")
+_G_REF: dict = {}
+
+
+def _gen_service(t0: int, t1: int, d0: int, d1: int, doc: bool, stream: bool):  # type: ignore[no-untyped-def]
+    """Protocol ``GenSvc`` with ``m(self, p0: T0 [= ...], p1: T1 [= ...]) -> int | Stream`` and ``ping(self) -> None``,
+    and an implementation of it.  Only defaults and docstrings vary with d0, d1, doc."""
+    def m(self, p0, p1):  # type: ignore[no-untyped-def]
+        ...
+
+    def ping(self):  # type: ignore[no-untyped-def]
+        ...
+
+    m.__annotations__ = {"p0": _G_TYPES[t0][0], "p1": _G_TYPES[t1][0], "return": _Stream[_DProd] if stream else int}
+    ping.__annotations__ = {"return": type(None)}
+    dflt = tuple((None if d == 2 else _G_TYPES[t][1]) for d, t in ((d0, t0), (d1, t1)) if d)
+    m.__defaults__ = dflt or None
+    if doc:
+        m.__doc__ = "Do m.\n\nArgs:\n    p0: the first.\n    p1: the second.\n"
+        ping.__doc__ = "Ping."
+    ns = {"m": m, "ping": ping}
+    if doc:
+        ns["__doc__"] = "A generated service."
+    proto = _types.new_class("GenSvc", (_Protocol,), {}, lambda d: d.update(ns))
+
+    class GenImpl:
+        def m(self, p0=None, p1=None):  # type: ignore[no-untyped-def]
+            return _Stream(output_schema=_D_SCHEMA, state=_DProd()) if stream else 1
+
+        def ping(self) -> None:
+            return None
+
+    return proto, GenImpl()
+
+
+def _gen_description(t0: int, t1: int, d0: int, d1: int, doc: bool, stream: bool, sid: str):  # type: ignore[no-untyped-def]
+    """(described content, server.protocol_hash) of the generated service, through a real __describe__ call."""
+    proto, impl = _gen_service(t0, t1, d0, d1, doc, stream)
+    server = _srv.RpcServer(proto, impl, server_id=sid, enable_describe=True)
+    tr = _DTransport(_describe_request(None))
+    server.serve_one(tr)
+    got = _parse_describe(tr.writer.getvalue())
+    if isinstance(got, _RpcError):
+        raise HarnessModelError(f"__describe__ of a generated service is refused: {got}")
+    return _desc_key(got), server.protocol_hash
+
+
+def _stability_cell(t0: int, t1: int, d0: int, d1: int, doc: bool, stream: bool, sid: bool) -> str | None:
+    """One generated service against its bare twin; a description of the breach, or None."""
+    rk = (t0, t1, stream)
+    if rk not in _G_REF:
+        ref = _gen_description(t0, t1, 0, 0, False, stream, "ref")
+        if set(ref[0][3]) != {"m", "ping"} or ref[0][2] != ref[1]:
+            raise HarnessModelError("the bare generated service is not described as written: harness out of date")
+        _G_REF[rk] = ref
+    (rkey, rhash) = _G_REF[rk]
+    key, h = _gen_description(t0, t1, d0, d1, doc, stream, "srv-b" if sid else "srv-a")
+    where = "m(self, p0: %s [%s], p1: %s [%s]) -> %s, %s docstrings, server id %s" % (
+        getattr(_G_TYPES[t0][0], "__name__", _G_TYPES[t0][0]), _G_DEFAULT_KINDS[d0], getattr(_G_TYPES[t1][0], "__name__", _G_TYPES[t1][0]), _G_DEFAULT_KINDS[d1],
+        "Stream" if stream else "int", "with" if doc else "without", "srv-b" if sid else "srv-a")
+    if key[3] != rkey[3]:
+        diff = [n for n in rkey[3] if key[3].get(n) != rkey[3][n]]
+        return f"{where}: the described methods {diff} differ from those of the same Protocol without defaults/docstrings: {key[3].get(diff[0]) if diff else None!r} vs {rkey[3][diff[0]] if diff else None!r}"
+    if h != rhash or key[2] != rhash:
+        return f"{where}: protocol hash {h[:16]} differs from {rhash[:16]} of the same Protocol without defaults/docstrings"
+    return None
+
+
+def _stab_args(a: dict) -> tuple:
+    t0 = int(a["t0"])
+    t1 = int(a["t1"]) if _G_T1_FREE else (t0 + 3) % len(_G_TYPES)
+    return t0, t1, int(a["d0"]), int(a["d1"]), bool(a["doc"]), bool(a["stream"]), bool(a["sid"])
+
+
+def _sig_stability(a: dict, c) -> str:  # type: ignore[no-untyped-def]
+    t0, t1, d0, d1, doc, _s, sid = _stab_args(a)
+    what = "default-none" if 2 in (d0, d1) else "default-value" if 1 in (d0, d1) else "docstring" if doc else "server-id" if sid else "none"
+    return "C39:hash-stability:" + what
+
+
+_G_T1_FREE = pick(False, True)
+
+
+@cond(q=90, t=300, encoded=[isp.build_describe_batch, isp.compute_protocol_hash], replay=lambda a: _stability_cell(*_stab_args(a)), signature=_sig_stability,
+      bound="generated Protocol GenSvc{m(p0: T0, p1: T1) -> int | producer Stream, ping() -> None}: T0 any of %d parameter types (int, str, float, bytes, bool, "
+            "Optional[int], list[int], Enum), T1 %s; per parameter: no default / a value of the type / None (defaults on a suffix, as Python requires); with / without "
+            "method+class docstrings; two server ids; against the same Protocol without defaults and docstrings (solver case split; each cell builds the classes and runs "
+            "rpc_methods -> RpcServer -> real __describe__ concretely)" % (len(_G_TYPES), "free" if _G_T1_FREE else "= the type 3 further in the table"))
+def hash_and_description_stable_under_defaults_docstrings_server_id(t0: int, t1: int, d0: int, d1: int, doc: bool, stream: bool, sid: bool) -> bool:
+    """
+    pre: 0 <= t0 < len(_G_TYPES) and 0 <= t1 < len(_G_TYPES) and 0 <= d0 <= 2 and 0 <= d1 <= 2
+    pre: d0 == 0 or d1 != 0
+    pre: _G_T1_FREE or t1 == 0
+    post: _
+    """
+    a0 = _index(t0, len(_G_TYPES))
+    a1 = _index(t1, len(_G_TYPES)) if _G_T1_FREE else (a0 + 3) % len(_G_TYPES)
+    k0, k1 = _index(d0, 3), _index(d1, 3)
+    f = (True if doc else False, True if stream else False, True if sid else False)
+    return _untraced(_stability_cell, a0, a1, k0, k1, f[0], f[1], f[2]) is None
+
+
+ENCODED = ENCODED + [isp.build_describe_batch]
+BOUNDS += "; (e) stability of description and hash under defaults / docstrings / server id: generated two-parameter Protocols over %d parameter types, see the item" % len(_G_TYPES)
